@@ -16,6 +16,9 @@ below states that a translated function never panics (`some …`) and returns ex
 function — the one the property theorems are about — returns. A change to the Go source changes the generated
 definition; if it changes what the function computes, the theorem here stops checking.
 -/
+set_option linter.unusedSimpArgs false
+set_option linter.unusedVariables false
+
 namespace Jwt.FnTie
 open Jwt Jwt.GoRt Jwt.Gen.Fn
 
@@ -1523,5 +1526,359 @@ theorem isBlocking_perm {a b : List Issue} (h : a.Perm b) (t : Bool) : isBlockin
   | cons x _ ih => simp [ih]
   | swap x y l => simp [Bool.or_left_comm]
   | trans _ _ ih1 ih2 => exact ih1.trans ih2
+
+/-! ## C06: the account — limits, external authorization, trace, signing keys, `Account.Validate`, `AccountClaims.Validate` -/
+
+theorem mapEntries_mapOfValWith {α : Type} (f : Jwt.Val → α) (v : Jwt.Val) :
+    mapEntries (mapOfValWith f v) = v.asMap.map fun p => (p.1, f p.2) := by
+  cases v <;> simp [mapOfValWith, mapEntries, Jwt.Val.asMap]
+
+/-- `OperatorLimits.IsEmpty` (three struct comparisons with the zero struct) = the model's field-wise test -/
+theorem v2_limitsIsEmpty (lim : Jwt.Val) :
+    V2.OperatorLimits_IsEmpty (V2.T_OperatorLimits.ofVal lim) = some (limitsIsEmpty lim) := by
+  unfold V2.OperatorLimits_IsEmpty limitsIsEmpty jsFlatNonZero jsFlatKeys
+  simp only [V2.T_OperatorLimits.ofVal, V2.T_NatsLimits.ofVal, V2.T_AccountLimits.ofVal, V2.T_JetStreamLimits.ofVal,
+    mapLen, mapEntries_mapOfValWith, Option.pure_def, Bool.beq_eq_decide_eq, V2.T_NatsLimits.mk.injEq,
+    V2.T_AccountLimits.mk.injEq, V2.T_JetStreamLimits.mk.injEq]
+  congr 1
+  simp only [List.all_cons, List.all_nil, List.any_cons, List.any_nil, List.length_map, Bool.and_true, Bool.or_false]
+  rw [Bool.eq_iff_iff]
+  simp only [Bool.and_eq_true, decide_eq_true_eq, Bool.not_eq_true', Bool.or_eq_false_iff, bne_eq_false_iff_eq,
+    beq_iff_eq, List.isEmpty_iff]
+  constructor
+  · rintro ⟨⟨⟨⟨a, b, c⟩, ⟨d, e, f, g, h, i⟩⟩, ⟨j, k, l, m, n, o, p, q⟩⟩, r⟩
+    have hr : (lim.field "tiered_limits").asMap = [] := by
+      cases hm : (lim.field "tiered_limits").asMap with
+      | nil => rfl
+      | cons x y => simp [hm] at r; omega
+    simp_all
+  · intro h
+    simp_all
+
+theorem decide_mem_keys {ν : Type} (k : Str) (kvs : List (Str × ν)) :
+    decide (k ∈ kvs.map (·.1)) = kvs.any (fun x => decide (x.1 = k)) := by
+  induction kvs with
+  | nil => simp
+  | cons x xs ih =>
+    by_cases hx : x.1 = k
+    · simp [hx]
+    · have hx' : ¬ k = x.1 := fun e => hx e.symm
+      simp only [List.map_cons, List.mem_cons, hx', false_or, List.any_cons, hx, decide_false, Bool.false_or]
+      exact ih
+
+/-- `OperatorLimits.Validate` (rows L1, L2) -/
+theorem v2_operatorLimitsValidate (lim : Jwt.Val) (vr : V2.T_ValidationResults) :
+    V2.OperatorLimits_Validate (V2.T_OperatorLimits.ofVal lim) vr = some (push vr (validateOperatorLimits lim)) := by
+  unfold V2.OperatorLimits_Validate validateOperatorLimits jsFlatNonZero jsFlatKeys
+  have hjs : ((V2.T_OperatorLimits.ofVal lim).f_JetStreamLimits !=
+      ({ f_MemoryStorage := 0, f_DiskStorage := 0, f_Streams := 0, f_Consumer := 0, f_MaxAckPending := 0,
+         f_MemoryMaxStreamBytes := 0, f_DiskMaxStreamBytes := 0, f_MaxBytesRequired := false } : V2.T_JetStreamLimits)) =
+      (["mem_storage", "disk_storage", "streams", "consumer", "max_ack_pending", "mem_max_stream_bytes",
+          "disk_max_stream_bytes"].any (fun k => (lim.field k).asInt != 0) || (lim.field "max_bytes_required").asBool) := by
+    simp only [V2.T_OperatorLimits.ofVal, V2.T_JetStreamLimits.ofVal, bne, Bool.beq_eq_decide_eq, V2.T_JetStreamLimits.mk.injEq,
+      List.any_cons, List.any_nil, Bool.or_false]
+    rw [Bool.eq_iff_iff]
+    simp only [Bool.not_eq_true', decide_eq_false_iff_not, not_and, Bool.or_eq_true, decide_eq_true_eq]
+    constructor
+    · intro h
+      by_cases h1 : (lim.field "mem_storage").asInt = 0 <;> by_cases h2 : (lim.field "disk_storage").asInt = 0 <;>
+        by_cases h3 : (lim.field "streams").asInt = 0 <;> by_cases h4 : (lim.field "consumer").asInt = 0 <;>
+        by_cases h5 : (lim.field "max_ack_pending").asInt = 0 <;> by_cases h6 : (lim.field "mem_max_stream_bytes").asInt = 0 <;>
+        by_cases h7 : (lim.field "disk_max_stream_bytes").asInt = 0 <;> simp_all
+    · intro h a b c d e f g
+      simp_all
+  have hlen : (mapLen (V2.T_OperatorLimits.ofVal lim).f_JetStreamTieredLimits > 0) ↔
+      ¬ (lim.field "tiered_limits").asMap.isEmpty = true := by
+    simp only [V2.T_OperatorLimits.ofVal, mapLen, mapEntries_mapOfValWith, List.length_map]
+    cases (lim.field "tiered_limits").asMap <;> simp <;> omega
+  have hblank : (mapGet (V2.T_OperatorLimits.ofVal lim).f_JetStreamTieredLimits ([] : Str)).isSome =
+      (lim.field "tiered_limits").asMap.any (·.1 = []) := by
+    simp only [V2.T_OperatorLimits.ofVal]
+    cases ht : lim.field "tiered_limits" <;> simp [mapOfValWith, mapGet, Jwt.Val.asMap]
+    rename_i kvs
+    have := mapGet_isSome' (kvs.map fun p => (p.1, V2.T_JetStreamLimits.ofVal p.2)) []
+    simp only [mapGet] at this
+    rw [this, decide_mem_keys]
+    simp [List.any_map, Function.comp_def]
+  by_cases hne : (lim.field "tiered_limits").asMap.isEmpty = true
+  · have : ¬ mapLen (V2.T_OperatorLimits.ofVal lim).f_JetStreamTieredLimits > 0 := fun h => (hlen.mp h) hne
+    simp [this, hne]
+  · have hpos : mapLen (V2.T_OperatorLimits.ofVal lim).f_JetStreamTieredLimits > 0 := hlen.mpr hne
+    simp only [hpos, decide_true, if_true, hjs, hblank, v2_addError, Option.pure_def, Option.bind_eq_bind,
+      Option.bind_some, ite_some, push_ite, push_push, hne, Bool.false_eq_true, if_false]
+    simp [errIf]
+
+theorem foldl_push {α : Type} (f : α → List Issue) : ∀ (xs : List α) (w : V2.T_ValidationResults),
+    xs.foldl (fun st x => push st (f x)) w = push w (xs.flatMap f) := by
+  intro xs
+  induction xs with
+  | nil => intro w; simp
+  | cons x xs ih => intro w; simp [ih, push_push]
+
+/-- `ExternalAuthorization.Validate` (rows X1–X5); the nkeys validators are parameters -/
+theorem v2_extAuthValidate (opq : V2.Opq)
+    (hAcct : ∀ x, opq.nkeys_IsValidPublicAccountKey x = validAcct x)
+    (hUser : ∀ x, opq.nkeys_IsValidPublicUserKey x = validUser x)
+    (hCurve : ∀ x, opq.nkeys_IsValidPublicCurveKey x = validCurve x)
+    (a : Jwt.Val) (vr : V2.T_ValidationResults) :
+    V2.ExternalAuthorization_Validate (V2.T_ExternalAuthorization.ofVal a) vr opq = some (push vr (validateExtAuth a)) := by
+  unfold V2.ExternalAuthorization_Validate validateExtAuth
+  simp only [V2.T_ExternalAuthorization.ofVal]
+  obtain ⟨users, hu⟩ : ∃ u, (a.field "auth_users").strs = u := ⟨_, rfl⟩
+  obtain ⟨allowed, hal⟩ : ∃ u, (a.field "allowed_accounts").strs = u := ⟨_, rfl⟩
+  obtain ⟨xkey, hxk⟩ : ∃ u, (a.field "xkey").asStr = u := ⟨_, rfl⟩
+  simp only [hu, hal, hxk]
+  have h1 : ∀ (i : Int) (u : Str) (w : V2.T_ValidationResults),
+      V2.ExternalAuthorization_Validate.loop1 opq i u w = some (.next (push w (errIf (!validUser u)))) := by
+    intro i u w
+    simp only [V2.ExternalAuthorization_Validate.loop1, hUser, v2_addError, Option.pure_def, Option.bind_eq_bind,
+      Option.bind_some, ite_some, push_ite]
+    cases validUser u <;> simp [errIf]
+  have h2 : ∀ (i : Int) (acc : Str) (w : V2.T_ValidationResults),
+      V2.ExternalAuthorization_Validate.loop2 { f_AuthUsers := users, f_AllowedAccounts := allowed, f_XKey := xkey } opq i acc w =
+        some (.next (push w (if acc = Gen.V2.cAnyAccount then errIf (allowed.length > 1) else errIf (!validAcct acc)))) := by
+    intro i acc w
+    simp only [V2.ExternalAuthorization_Validate.loop2, hAcct, v2_addError, Gen.V2.cAnyAccount]
+    by_cases ha : acc = ['*']
+    · subst ha
+      by_cases hl : allowed.length > 1
+      · have : decide (len allowed > 1) = true := by simp [len]; omega
+        simp [this, hl, errIf]
+      · have : decide (len allowed > 1) = false := by simp [len]; omega
+        simp [this, hl, errIf]
+    · have hb : (acc == ['*']) = false := by simpa using ha
+      cases hv : validAcct acc <;> simp [ha, hb, hv, errIf]
+  simp only [forRange, forRangeFrom_fold _ _ h1, forRangeFrom_fold _ _ h2, foldl_push, hCurve, v2_addError,
+    Option.pure_def, Option.bind_eq_bind, Option.bind_some, ite_some, push_ite, push_push]
+  have e1 : (decide (len allowed > 0) && (len users == 0)) = (!allowed.isEmpty && users.isEmpty) := by
+    cases allowed <;> cases users <;> simp [len] <;> omega
+  simp only [e1]
+  cases hx : (!allowed.isEmpty && users.isEmpty) <;> by_cases hk : xkey = [] <;> cases hc : validCurve xkey <;>
+    simp [hx, hk, hc, errIf, bne, Bool.beq_eq_decide_eq]
+
+/-- how a signing-key entry is read out of a model value (as generated in `T_Account.ofVal`) -/
+def scopeOfVal (x : Jwt.Val) : Option V2.I_Scope :=
+  match x with
+  | .nil => none
+  | .ptr s => some (V2.I_Scope.UserScope (V2.T_UserScope.ofVal s))
+  | s => some (V2.I_Scope.UserScope (V2.T_UserScope.ofVal s))
+
+/-- `SigningKeys.Validate` (rows K1, K2): plain keys by the map key, scopes by their own key (dynamic dispatch) -/
+theorem v2_signingKeysValidate (opq : V2.Opq) (hAcct : ∀ x, opq.nkeys_IsValidPublicAccountKey x = validAcct x)
+    (sk : Jwt.Val) (vr : V2.T_ValidationResults) :
+    V2.SigningKeys_Validate (mapOfValWith scopeOfVal sk) vr opq = some (push vr (validateSigningKeys sk)) := by
+  have hb : ∀ (i : Int) (e : Str × Jwt.Val) (w : V2.T_ValidationResults),
+      V2.SigningKeys_Validate.loop1 opq i (e.1, scopeOfVal e.2) w = some (.next (push w (validateSigningKey e.1 e.2))) := by
+    intro i e w
+    obtain ⟨k, v⟩ := e
+    cases v <;>
+      simp only [V2.SigningKeys_Validate.loop1, scopeOfVal, validateSigningKey, V2.I_Scope.Validate, V2.UserScope_Validate,
+        V2.T_UserScope.ofVal, hAcct, v2_addError, Option.isSome_some, Option.isSome_none, Option.pure_def, Option.bind_eq_bind,
+        Option.bind_some, ite_some, push_ite, if_true, if_false, Bool.false_eq_true] <;>
+      (first | (cases validAcct k <;> simp [errIf]) | skip)
+    all_goals (first | (rename_i x; cases validAcct (x.field "key").asStr <;> simp [errIf]) | skip)
+  unfold V2.SigningKeys_Validate validateSigningKeys
+  simp only [forRange, mapEntries_mapOfValWith]
+  have hloop : ∀ (es : List (Str × Jwt.Val)) (i : Int) (w : V2.T_ValidationResults),
+      forRangeFrom (ρ := V2.T_ValidationResults) (V2.SigningKeys_Validate.loop1 opq) i (es.map fun p => (p.1, scopeOfVal p.2)) w =
+        some (.done (push w (es.flatMap fun e => validateSigningKey e.1 e.2))) := by
+    intro es
+    induction es with
+    | nil => intro i w; simp [forRangeFrom]
+    | cons e es ih => intro i w; simp [forRangeFrom, hb, ih, push_push]
+  simp [hloop]
+
+/-- `Permissions.Validate` (rows P1–P3; the response permission has no rules) -/
+theorem v2_permissionsValidate (v : Jwt.Val) (vr : V2.T_ValidationResults) :
+    V2.Permissions_Validate (V2.T_Permissions.ofVal v) vr = some (push vr (validatePermissions v)) := by
+  unfold V2.Permissions_Validate validatePermissions validatePermission
+  have hs : (V2.T_Permissions.ofVal v).f_Sub = { f_Allow := ((v.field "sub").field "allow").strs, f_Deny := ((v.field "sub").field "deny").strs } := rfl
+  have hp : (V2.T_Permissions.ofVal v).f_Pub = { f_Allow := ((v.field "pub").field "allow").strs, f_Deny := ((v.field "pub").field "deny").strs } := rfl
+  simp only [hs, hp, v2_permissionValidate, V2.ResponsePermission_Validate, Option.pure_def, Option.bind_eq_bind,
+    Option.bind_some, push_push]
+  cases (V2.T_Permissions.ofVal v).f_Resp <;> simp
+
+/-- the wildcard-export loop of `Account.Validate` (row L5): null entries are skipped -/
+theorem v2_wildcardLoop (now : Int) (opq : V2.Opq) : ∀ (es : List Jwt.Val) (i : Int) (w : V2.T_ValidationResults),
+    forRangeFrom (ρ := V2.T_Account × V2.T_ValidationResults) (V2.Account_Validate.loop1 now opq) i
+        (es.map (optOfVal V2.T_Export.ofVal)) w =
+      some (.done (push w (wildcardExportIssues es))) := by
+  intro es
+  induction es with
+  | nil => intro i w; simp [forRangeFrom, wildcardExportIssues]
+  | cons ev es ih =>
+    intro i w
+    cases hd : ev.deref with
+    | none =>
+      have hn : optOfVal V2.T_Export.ofVal ev = none := by
+        cases ev <;> simp [Jwt.Val.deref, optOfVal] at hd ⊢
+      have := ih (i + 1) w
+      simp only [wildcardExportIssues] at this ⊢
+      simp [forRangeFrom, V2.Account_Validate.loop1, hn, hd, this]
+    | some e =>
+      have hs : optOfVal V2.T_Export.ofVal ev = some (V2.T_Export.ofVal e) := by
+        cases ev <;> simp [Jwt.Val.deref, optOfVal] at hd ⊢
+        exact congrArg _ hd
+      have hsub : (V2.T_Export.ofVal e).f_Subject = (e.field "subject").asStr := rfl
+      have := ih (i + 1) (push w (errIf (hasWildCards (e.field "subject").asStr)))
+      simp only [wildcardExportIssues, errIf] at this ⊢
+      simp only [List.map_cons, forRangeFrom, V2.Account_Validate.loop1, hs, hsub, v2_hasWildCards, v2_addError,
+        Option.isSome_some, if_true, Option.pure_def, Option.bind_eq_bind, Option.bind_some, ite_some, push_ite, this,
+        push_push, List.flatMap_cons, hd]
+
+theorem ite_ite_nil (a b : Bool) (x : List Issue) :
+    (if a = true then (if b = true then x else []) else []) = (if (a && b) = true then x else []) := by
+  cases a <;> cases b <;> simp
+
+theorem push_ite' (c : Prop) [Decidable c] (vr : V2.T_ValidationResults) (x e : List Issue) :
+    (if c then push vr (x ++ e) else push vr x) = push vr (x ++ if c then e else []) := by
+  by_cases h : c <;> simp [h]
+
+theorem isEmpty_push_empty (l : List Issue) :
+    V2.ValidationResults_IsEmpty (push ({ f_Issues := [] } : V2.T_ValidationResults) l) = some l.isEmpty := by
+  cases l <;> simp [V2.ValidationResults_IsEmpty, push, len]
+  omega
+
+theorem validateImports_asList (cr : Crypto) (acct : Str) (v : Jwt.Val) :
+    validateImports cr acct (Jwt.Val.list v.asList) = validateImports cr acct v := by
+  simp [validateImports, Jwt.Val.asList]
+
+theorem validateExports_asList (env : VEnv) (v : Jwt.Val) :
+    validateExports env (Jwt.Val.list v.asList) = validateExports env v := by
+  simp [validateExports, Jwt.Val.asList]
+
+/-- `Account.Validate` (rows A1-A10 of C06/C11): every block in source order; the imports block up to the
+    order of Go's map iteration (`v2_importsValidate`) -/
+theorem v2_accountBodyValidate (env : VEnv) (cr : Crypto) (opq : V2.Opq)
+    (hInfo : ∀ (e : Jwt.Val) (vr : V2.T_ValidationResults),
+      opq.Info_Validate (V2.T_Info.ofVal e) vr = some (push vr (validateInfo env e)))
+    (hAtoi : ∀ x, opq.strconv_Atoi x = atoi x)
+    (hAcct : ∀ x, opq.nkeys_IsValidPublicAccountKey x = validAcct x)
+    (hUser : ∀ x, opq.nkeys_IsValidPublicUserKey x = validUser x)
+    (hCurve : ∀ x, opq.nkeys_IsValidPublicCurveKey x = validCurve x)
+    (hToSub : ∀ x, opq.RenamingSubject_ToSubject x = some (renamingToSubject x))
+    (hDec : ∀ tok, opq.DecodeActivationClaims tok =
+      some (match decodeTyped .activation cr tok with
+            | .ok c => (some (V2.T_ActivationClaims.ofVal c.val), false)
+            | .error _ => (none, true)))
+    (c : Jwt.Val) (vr : V2.T_ValidationResults) (now : Int) :
+    ∃ a' l, V2.Account_Validate (V2.T_Account.ofVal (c.field "nats")) (V2.T_AccountClaims.ofVal c) vr now opq =
+        some (a', push vr l) ∧ a'.f_Limits = V2.T_OperatorLimits.ofVal ((c.field "nats").field "limits") ∧
+      l.Perm (validateAccountBody env cr c) := by
+  obtain ⟨n, hn⟩ : ∃ n, c.field "nats" = n := ⟨_, rfl⟩
+  obtain ⟨l1, h1, p1⟩ := v2_importsValidate cr opq hAtoi hAcct hToSub hDec (c.field "sub").asStr now
+    (n.field "imports").asList vr
+  rw [validateImports_asList] at p1
+  have hsk : (V2.T_Account.ofVal n).f_SigningKeys = mapOfValWith scopeOfVal (n.field "signing_keys") := by
+    simp only [V2.T_Account.ofVal]; congr 1
+  have hI : (V2.T_Account.ofVal n).f_Imports = (n.field "imports").asList.map (optOfVal V2.T_Import.ofVal) := rfl
+  have hE : (V2.T_Account.ofVal n).f_Exports = (n.field "exports").asList.map (optOfVal V2.T_Export.ofVal) := rfl
+  have hL : (V2.T_Account.ofVal n).f_Limits = V2.T_OperatorLimits.ofVal (n.field "limits") := rfl
+  have hP : (V2.T_Account.ofVal n).f_DefaultPermissions = V2.T_Permissions.ofVal (n.field "default_permissions") := rfl
+  have hM : (V2.T_Account.ofVal n).f_Mappings =
+      mapOfValWith (fun x => x.asList.map V2.T_WeightedMapping.ofVal) (n.field "mappings") := rfl
+  have hA : (V2.T_Account.ofVal n).f_Authorization = V2.T_ExternalAuthorization.ofVal (n.field "authorization") := rfl
+  have hT : (V2.T_Account.ofVal n).f_Trace = optOfVal V2.T_MsgTrace.ofVal (n.field "trace") := rfl
+  have hF : (V2.T_Account.ofVal n).f_Info = V2.T_Info.ofVal n := rfl
+  have hS : (V2.T_AccountClaims.ofVal c).f_ClaimsData.f_Subject = (c.field "sub").asStr := rfl
+  have hli : (V2.T_OperatorLimits.ofVal (n.field "limits")).f_AccountLimits.f_Imports = ((n.field "limits").field "imports").asInt := rfl
+  have hle : (V2.T_OperatorLimits.ofVal (n.field "limits")).f_AccountLimits.f_Exports = ((n.field "limits").field "exports").asInt := rfl
+  have hlw : (V2.T_OperatorLimits.ofVal (n.field "limits")).f_AccountLimits.f_WildcardExports = ((n.field "limits").field "wildcards").asBool := rfl
+  unfold V2.Account_Validate
+  simp only [hn, hI, hE, hL, hP, hM, hA, hF, hS, hsk, h1, v2_exportsValidate env opq hInfo, v2_operatorLimitsValidate,
+    v2_permissionsValidate, v2_mappingValidate, v2_extAuthValidate opq hAcct hUser hCurve, mapEntries_mapOfValWith,
+    ← validateMappings_eq, validateExports_asList, Option.pure_def, Option.bind_eq_bind, Option.bind_some, push_push]
+  cases htr : (n.field "trace").deref with
+  | none =>
+    have hnone : optOfVal V2.T_MsgTrace.ofVal (n.field "trace") = none := by
+      cases hv : n.field "trace" <;> simp [hv, Jwt.Val.deref, optOfVal] at htr ⊢
+    simp only [hT, hnone, Option.isSome_none, Bool.false_eq_true, if_false, Option.pure_def, Option.bind_some,
+      hL, hI, hE, hsk, hF, hli, hle, hlw, v2_limitsIsEmpty, ite_some, ite_and, Option.bind_some, v2_addError,
+      push_ite, push_push, forRange, v2_wildcardLoop, v2_signingKeysValidate opq hAcct, hInfo, Option.bind_eq_bind,
+      len, List.length_map]
+    by_cases he : (((n.field "limits").field "exports").asInt != -1) = true <;>
+    by_cases hw : (!((n.field "limits").field "wildcards").asBool) = true <;>
+    simp only [he, hw, if_true, if_false, push_push, Bool.false_eq_true] <;>
+    refine ⟨_, _, rfl, hL, ?_⟩ <;>
+    simp only [List.append_assoc, validateAccountBody, hn] <;>
+    refine List.Perm.append p1 (List.Perm.of_eq ?_) <;>
+    simp only [validateAccountLimits, validateTrace, htr, errIf, Gen.V2.cNoLimit, he, hw, List.nil_append, if_true, if_false,
+      List.append_assoc, List.append_nil, Bool.false_eq_true, ite_ite_nil]
+    all_goals rfl
+  | some tr =>
+    have hsome : optOfVal V2.T_MsgTrace.ofVal (n.field "trace") = some (V2.T_MsgTrace.ofVal tr) := by
+      cases hv : n.field "trace" <;> simp [hv, Jwt.Val.deref, optOfVal] at htr ⊢
+      all_goals exact congrArg _ htr
+    have hts : (V2.T_MsgTrace.ofVal tr).f_Sampling = (tr.field "sampling").asInt := rfl
+    have htd : (V2.T_MsgTrace.ofVal tr).f_Destination = (tr.field "dest").asStr := rfl
+    by_cases hs1 : (tr.field "sampling").asInt < 0 ∨ (tr.field "sampling").asInt > 100
+    · have hs1' : (decide ((tr.field "sampling").asInt < 0) || decide ((tr.field "sampling").asInt > 100)) = true := by
+        simpa using hs1
+      simp only [hT, hsome, Option.isSome_some, if_true, Option.pure_def, Option.bind_some, V2.CreateValidationResults,
+        hts, htd, v2_subjectValidate, isEmpty_push_empty, v2_hasWildCards, ite_or, hs1',
+        hL, hI, hE, hsk, hF, hli, hle, hlw, v2_limitsIsEmpty, ite_some, ite_and, v2_addError,
+        push_ite, push_push, forRange, v2_wildcardLoop, v2_signingKeysValidate opq hAcct, hInfo, Option.bind_eq_bind,
+        len, List.length_map, push_ite']
+      by_cases he : (((n.field "limits").field "exports").asInt != -1) = true <;>
+      by_cases hw : (!((n.field "limits").field "wildcards").asBool) = true <;>
+      simp only [he, hw, if_true, if_false, push_push, Bool.false_eq_true] <;>
+      refine ⟨_, _, rfl, hL, ?_⟩ <;>
+      simp only [List.append_assoc, validateAccountBody, hn] <;>
+      refine List.Perm.append p1 (List.Perm.of_eq ?_) <;>
+      simp only [validateAccountLimits, validateTrace, htr, errIf, Gen.V2.cNoLimit, he, hw, List.nil_append, if_true, if_false,
+        List.append_assoc, List.append_nil, Bool.false_eq_true, ite_ite_nil, hs1']
+      all_goals rfl
+    · have hs1' : (decide ((tr.field "sampling").asInt < 0) || decide ((tr.field "sampling").asInt > 100)) = false := by
+        simpa using hs1
+      have h00 : (decide ((0 : Int) < 0) || decide ((0 : Int) > 100)) = false := by decide
+      cases hs0 : ((tr.field "sampling").asInt == 0)
+      all_goals
+        simp only [hT, hsome, Option.isSome_some, if_true, Option.pure_def, Option.bind_some, V2.CreateValidationResults,
+          hts, htd, v2_subjectValidate, isEmpty_push_empty, v2_hasWildCards, ite_or, hs1', hs0,
+          Bool.false_eq_true, if_false,
+          hL, hI, hE, hsk, hF, hli, hle, hlw, v2_limitsIsEmpty, ite_some, ite_and, v2_addError,
+          push_ite, push_push, forRange, v2_wildcardLoop, v2_signingKeysValidate opq hAcct, hInfo, Option.bind_eq_bind,
+          len, List.length_map, push_ite']
+      all_goals
+        by_cases he : (((n.field "limits").field "exports").asInt != -1) = true <;>
+        by_cases hw : (!((n.field "limits").field "wildcards").asBool) = true <;>
+        (try simp only [he, hw, if_true, if_false, push_push, Bool.false_eq_true]) <;>
+        refine ⟨_, _, rfl, (by first | exact hL | rfl), ?_⟩ <;>
+        simp only [List.append_assoc, validateAccountBody, hn] <;>
+        refine List.Perm.append p1 (List.Perm.of_eq ?_) <;>
+        simp only [validateAccountLimits, validateTrace, htr, errIf, Gen.V2.cNoLimit, he, hw, List.nil_append, if_true, if_false,
+          List.append_assoc, List.append_nil, Bool.false_eq_true, ite_ite_nil, hs1']
+      all_goals rfl
+
+/-- `AccountClaims.Validate`: the time checks, `Account.Validate`, then the self-signed-with-limits warning -/
+theorem v2_accountClaimsValidate (env : VEnv) (cr : Crypto) (opq : V2.Opq)
+    (hInfo : ∀ (e : Jwt.Val) (vr : V2.T_ValidationResults),
+      opq.Info_Validate (V2.T_Info.ofVal e) vr = some (push vr (validateInfo env e)))
+    (hAtoi : ∀ x, opq.strconv_Atoi x = atoi x)
+    (hAcct : ∀ x, opq.nkeys_IsValidPublicAccountKey x = validAcct x)
+    (hUser : ∀ x, opq.nkeys_IsValidPublicUserKey x = validUser x)
+    (hCurve : ∀ x, opq.nkeys_IsValidPublicCurveKey x = validCurve x)
+    (hToSub : ∀ x, opq.RenamingSubject_ToSubject x = some (renamingToSubject x))
+    (hDec : ∀ tok, opq.DecodeActivationClaims tok =
+      some (match decodeTyped .activation cr tok with
+            | .ok c => (some (V2.T_ActivationClaims.ofVal c.val), false)
+            | .error _ => (none, true)))
+    (c : Jwt.Val) (vr : V2.T_ValidationResults) (now : Int) :
+    ∃ a' l, V2.AccountClaims_Validate (V2.T_AccountClaims.ofVal c) vr now opq = some (a', push vr l) ∧
+      l.Perm (validateAccount env cr now c) := by
+  have hcd : V2.ClaimsData_Validate (V2.T_AccountClaims.ofVal c).f_ClaimsData vr now =
+      some (push vr (validateClaimsData now c)) := by
+    rw [v2_claimsDataValidate]; rfl
+  obtain ⟨a', l, h, hlim, hp⟩ := v2_accountBodyValidate env cr opq hInfo hAtoi hAcct hUser hCurve hToSub hDec c
+    (push vr (validateClaimsData now c)) now
+  have hacc : (V2.T_AccountClaims.ofVal c).f_Account = V2.T_Account.ofVal (c.field "nats") := rfl
+  have hiss : (V2.T_AccountClaims.ofVal c).f_ClaimsData.f_Issuer = (c.field "iss").asStr := rfl
+  unfold V2.AccountClaims_Validate
+  simp only [hcd, hacc, h, hiss, hlim, hAcct, v2_limitsIsEmpty, v2_addWarning, Option.pure_def, Option.bind_eq_bind,
+    Option.bind_some, ite_some, push_ite, push_push, push_ite', ite_ite_nil]
+  refine ⟨_, _, rfl, ?_⟩
+  unfold validateAccount
+  simp only [List.append_assoc]
+  exact List.Perm.append_left _ (List.Perm.append hp (List.Perm.refl _))
 
 end Jwt.FnTie
